@@ -73,6 +73,9 @@ def run_call(c, variant):
 def gen_call(rng):
     A = rng.randint(2, 5); L = rng.randint(1, 30); n = rng.randint(1, 3)
     x = [[rng.randrange(A) for _ in range(L)] for _ in range(n)]
+    if rng.random() < 0.25:                      # unknown characters (all-zero columns) are valid inputs
+        for _ in range(rng.randint(1, 2)):
+            x[rng.randrange(n)][rng.randrange(L)] = -1
     start = rng.randint(0, L - 1)
     end = rng.randint(start + 1, L)
     if rng.random() < 0.3:
